@@ -22,15 +22,15 @@ CONFIG = dict(
     driver_root="Cell2v.Driver.C14",
     audit="Audit/C14.lean",
     required_theorems=["no_callback_after_cancel", "oneshot_at_most_once", "oneshot_exactly_once_if_drained", "repeating_rearms",
-                       "never_early", "args_preserved", "callbacks_only_from_do", "panic_isolated"],
+                       "repeating_fires_again", "never_early", "args_preserved", "callbacks_only_from_do", "panic_isolated"],
     harness_pkg="./c14",
     mode="accept",
     reset_prefix="reset",
     runs={
-        "quick": [dict(name="main", env={"VERIF_N": "700"}, timeout=240)],
-        "thorough": [dict(name="main", env={"VERIF_N": "12000"}, timeout=800),
-                     dict(name="seed2", env={"VERIF_N": "6000"}, seed_offset=1000, timeout=800),
-                     dict(name="seed3", env={"VERIF_N": "6000"}, seed_offset=2000, procs=2, timeout=800)],
+        "quick": [dict(name="main", env={"VERIF_N": "4000"}, timeout=90)],
+        "thorough": [dict(name="main", env={"VERIF_N": "60000"}, timeout=800),
+                     dict(name="seed2", env={"VERIF_N": "30000"}, seed_offset=1000, procs=2, timeout=800),
+                     dict(name="seed3", env={"VERIF_N": "30000"}, seed_offset=2000, procs=3, timeout=800)],
     },
     trivial=r"^(ok|empty|bad-op|q=\d+|id=\d+ q=\d+|now=\d+ q=0|ev= q=0 loop=1)?$",
     rule="cases generated from one PRNG (VERIF_SEED): each case = reset, 5 callback scripts (cancel self / cancel other id / cancel newest / "
@@ -45,7 +45,9 @@ CONFIG = dict(
         "Lean 4.33.0 kernel; axioms of every property theorem audited on each run (allowed: propext, Classical.choice, Quot.sound)",
         "hand-written model lean/Cell2v/Model/Timer.lean tied to the Go code by the acceptance run of this check (harness/c14 + modeld_c14 accept)",
         "go1.26.8 testing/synctest: virtual clock, quiescence detection (every op: issue, synctest.Wait, observe)",
-        "time.AfterFunc runs its function once, on another goroutine, not before the duration; Timer.Stop prevents a not yet started run",
+        "time.AfterFunc runs its function once, on another goroutine, not before the duration; after Cancel either Timer.Stop prevents the run "
+        "or the closure's own Canceled test drops the object (same model state); an expiry goroutine that overtakes a Cancel issued later in the "
+        "same callback (timer created with no delay and cancelled at once) is accepted as the model's `expire` step between two callback steps",
         "blocked senders on the full queue channel resume in FIFO order; Obj.Canceled and Mgr.running are read/written atomically",
         "harness canonicalisation: callback log tokens (id, virtual ms, args), queue length, goroutine identity reduced to loop=0/1",
     ],
